@@ -37,7 +37,9 @@ namespace pika::threads::coroutines::detail {
 
             {
                 reset_self_on_exit on_exit(this);
+                PIKA_VERIF_POST("co.yield", this->pimpl_->get_thread_id().get(), static_cast<int>(arg.first), 0);
                 this->pimpl_->yield();
+                PIKA_VERIF_POST("co.resume", this->pimpl_->get_thread_id().get(), 0, 0);
             }
 
             return *pimpl_->args();
